@@ -476,11 +476,11 @@ func (w *cworld) execFault(op string) (string, int, bool) {
 		if newLead == nil {
 			return "", 0, false // nobody was elected in time
 		}
-		nl, ok := w.converge(45 * time.Second)
-		if !ok {
+		if _, ok := w.converge(45 * time.Second); !ok {
 			return "", 0, false
 		}
-		return fmt.Sprintf("%s@%d@%d@%s@l%d@%s@%d@%d", f[0], at.idx, j, plan, nl.idx, resTok(err), seen, loc), j, true
+		// <lead> = whom the others elected while the caller was cut off (the one its retries were forwarded to)
+		return fmt.Sprintf("%s@%d@%d@%s@l%d@%s@%d@%d", f[0], at.idx, j, plan, newLead.idx, resTok(err), seen, loc), j, true
 	}
 	if xfer {
 		if !xferOK || newLead == nil || w.leader() != newLead {
